@@ -150,6 +150,33 @@ func stripConv(v ssa.Value) ssa.Value {
 			v = x.X
 		case *ssa.MakeInterface:
 			v = x.X
+		case *ssa.UnOp:
+			// load of a local cell (captured variable) that is stored exactly once: the stored value
+			if x.Op != token.MUL {
+				return v
+			}
+			al, ok := x.X.(*ssa.Alloc)
+			if !ok {
+				return v
+			}
+			var only ssa.Value
+			n := 0
+			for _, ref := range *al.Referrers() {
+				switch r := ref.(type) {
+				case *ssa.Store:
+					if r.Addr == ssa.Value(al) {
+						n++
+						only = r.Val
+					}
+				case *ssa.UnOp, *ssa.MakeClosure, *ssa.DebugRef:
+				default:
+					n += 2 // address escapes in another way (field address, call argument): not a plain cell
+				}
+			}
+			if n != 1 {
+				return v
+			}
+			v = only
 		default:
 			return v
 		}
